@@ -97,6 +97,18 @@ def _generate(rng, tier):
                 for s_ in (s1, s2):
                     positions.append(([i], tdsl.RULE_ORIGIN.get(s_, s_), pid))
                 items.append({"$r": pid})
+            if rng.random() < 0.3:
+                # both alternatives are mappings with convertible keys: the keys can offend as well
+                t[1], t[2] = ["dict", ["keyleaf"], [s1]], ["dict", ["keyleaf"], [s2]]
+                pairs = []
+                for i, it in enumerate(items):
+                    kp = pool.next()
+                    positions.append(([i, "k"], "keyleaf", kp))
+                    pairs.append([{"$r": kp}, it])
+                items = {"$map": pairs}
+                if rng.random() < 0.5:
+                    # ... and the policy for keys is the only one that is on
+                    plan["policies"] = {"invalid_items": "throw", "invalid_values": "throw", "invalid_keys": rng.choice(["exclude", "preserve"])}
             plan["type"] = t
             plan["input"] = items
             plan["ndl"] = rng.random() < 0.7
@@ -128,15 +140,16 @@ def _generate(rng, tier):
                      "on_error": rng.choice([None, None, "exclude", "preserve", "throw"])}
                 fields.append(f)
                 inp[f["name"]] = rng.choice([{"kind": "a", "n": 1}, {"kind": "b", "m": "2"}, {"kind": "zz"}, 5, {"kind": "a", "n": "x"}, [1, 2],
-                                             '{"kind": "a", "n": "x"}', '{"kind": "a", "n": 2}', [["kind", "b"], ["m", "x"]]])
+                                             '{"kind": "a", "n": "x"}', '{"kind": "a", "n": 2}', [["kind", "b"], ["m", "x"]],
+                                             [["kind", "zz"], ["m", 1]], [["n", 1]], [["kind", "a"], ["n", "3"]]])
                 continue
             t = tdsl.gen_scalar(rng, rule_leaves=RL) if rng.random() < 0.55 else maybe_opt(tdsl.gen_container(rng, rng.choice([1, 1, 2]), rule_leaves=RL, dc_items=True))
             required = rng.random() < 0.5
             f = {"name": "f%d" % i, "type": t, "required": required,
                  "default": None if required else rng.choice(["absent", "none", "leaf"]),
                  "on_error": rng.choice([None, None, "exclude", "preserve", "throw"])}
-            if not required and f["default"] == "absent" and rng.random() < 0.4:
-                f["required"] = "mode"     # Field(required='a'): required only when the parse runs in mode 'a'
+            if not required and rng.random() < (0.4 if f["default"] == "absent" else 0.25):
+                f["required"] = "mode"     # Field(required='a'): required only when the parse runs in mode 'a' (with or without a default)
             if f["required"] and f["on_error"] == "exclude":
                 f["on_error"] = None   # rejected at declaration time by Field()
             if not tdsl.is_scalar(t) and t[0] != "opt" and rng.random() < 0.3:
@@ -255,9 +268,10 @@ def build(plan, strict=False):
                 kw["max_length"] = f["max_len"]
             if f["required"] == "mode":
                 kw["required"] = "a"
-            elif not f["required"]:
+            if not f["required"] or f["required"] == "mode":
                 if f["default"] == "absent":
-                    kw["required"] = False
+                    if not f["required"]:
+                        kw["required"] = False
                 elif f["default"] == "none":
                     kw["default"] = None
                 else:
